@@ -5,8 +5,11 @@ import json, os, sys, time, collections, random
 sys.path.insert(0, os.path.dirname(os.path.abspath(__file__)))
 import common
 common.ensure_impl_python()
-import ir_run, ir_oracles
+import ir_run, ir_oracles, coq_eval
 from ir_world import World
+
+# extraction/driver cross-check against `Eval vm_compute` (harness/coq_eval.py): number of histories per run
+XCHECK = {'quick': 40, 'thorough': 1500}
 
 STRUCT = {'par', 'libs', 'defs', 'ports', 'cables', 'children', 'pins', 'wires', 'wire', 'ref', 'refs'}
 NAMING = {'par', 'libs', 'defs', 'ports', 'cables', 'children', 'data', 'ns'}
@@ -132,7 +135,9 @@ def run_check(prop, tier, seed, on_step_factory=None, extra_cases=None, describe
             if fn.endswith('.ops'):
                 ops = [l.split(' ') for l in open(os.path.join(corpus_dir, fn)).read().split('\n') if l.strip() and not l.startswith('#')]
                 corpus.append((fn, ops))
+    xc_pool = []     # histories the extraction cross-check samples from
     for fn, ops in corpus + (extra_cases or []):
+        xc_pool.append(('corpus-' + fn, ops))
         d, fails = replay_compare(ops, cfg, on_step_factory)
         total_hist += 1
         total_steps += len(ops)
@@ -153,6 +158,7 @@ def run_check(prop, tier, seed, on_step_factory=None, extra_cases=None, describe
                 stats['%s/%s' % (op[0] + (':' + op[1] if op[0] in ('add', 'remove', 'removefrom', 'reorder', 'create', 'new', 'items') else ''), d.split(' ', 1)[0])] += 1
         model = ir_run.run_model([h[1] for h in hists])
         for (c, ops, dumps, fails), mdumps in zip(hists, model):
+            xc_pool.append(('%s-%d-%d' % (profile, seed + pi, c), ops))
             total_hist += 1
             total_steps += len(ops)
             sizes[len(World_size(dumps))] += 1
@@ -168,12 +174,26 @@ def run_check(prop, tier, seed, on_step_factory=None, extra_cases=None, describe
             elif fails or d is not None:
                 n_disagree += 1
 
+    # 3. extraction + driver glue cross-checked against the kernel's evaluator on a sample of the same histories
+    #    (the corpus, then generated histories spread evenly over the profiles)
+    want = XCHECK[tier]
+    gen_pool = [x for x in xc_pool if not x[0].startswith('corpus-')]
+    stride = max(1, len(gen_pool) // max(1, want - min(len(corpus), want // 2)))
+    xc_sample = [x for x in xc_pool if x[0].startswith('corpus-')][:want // 2] + gen_pool[::stride]
+    xc_sample = [x for x in xc_sample if x[1]][:want]
+    xc_res = coq_eval.check_digests('ir', [ops for _n, ops in xc_sample])
+    for m in xc_res['mismatches']:
+        if m.get('case') is not None:
+            m['source'] = xc_sample[m['case']][0]
+    xc_ev = coq_eval.report(rep, prop, 'ir', xc_res)
+
     wall = time.time() - t0
     theorems = proof['theorems']
     coverage = {
         'obligations': len(theorems), 'discharged': len(theorems) if (ok and proof['ok']) else 0,
         'checker_cmd': 'cd /verif && tools/build.sh && ' + proof['cmd'],
-        'trusted_base': trusted_base(proof),
+        'trusted_base': trusted_base(proof, xc_ev),
+        'extraction_crosscheck': xc_ev,
         'theorems': theorems,
         'print_assumptions': proof['assumptions'][-3000:],
         'programs': total_hist, 'disagreements_checked': total_steps,
@@ -190,8 +210,10 @@ def run_check(prop, tier, seed, on_step_factory=None, extra_cases=None, describe
         'explanation': describe or '',
     }
     common.write_evidence(prop, tier, seed, coverage, wall, len(rep.violations), assumptions(prop))
-    print('%s %s: %d histories, %d steps, %d disagreements, %d oracle failures, proof %s (%d theorems), %.1fs' % (
-        prop, tier, total_hist, total_steps, n_disagree, n_oracle, 'ok' if (ok and proof['ok']) else 'BROKEN', len(theorems), wall))
+    print('%s %s: %d histories, %d steps, %d disagreements, %d oracle failures, proof %s (%d theorems), '
+          'extraction cross-check %d cases / %d mismatches (%.1fs), %.1fs' % (
+              prop, tier, total_hist, total_steps, n_disagree, n_oracle, 'ok' if (ok and proof['ok']) else 'BROKEN', len(theorems),
+              xc_ev['cases'], xc_ev['mismatches'], xc_ev['wall_s'], wall))
     return rep.exit_code()
 
 
@@ -253,12 +275,13 @@ def search_failure(short, cfg, on_step_factory, seed):
     return None
 
 
-def trusted_base(proof):
+def trusted_base(proof, xc_ev=None):
     return [
-        'Coq 8.16.1 kernel (coqc); vm_compute only inside Example/refutation witnesses; no native_compute',
+        'Coq 8.16.1 kernel (coqc); vm_compute only inside Example/refutation witnesses and in the extraction cross-check; no native_compute',
         'Print Assumptions of every theorem in Props/: ' + ('Closed under the global context' if 'Axioms' not in proof['assumptions'] else 'see print_assumptions'),
         'extraction: ExtrOcamlBasic only (bool, option, unit, list, prod, sumbool -> OCaml natives); nat/N/Z/positive extracted as inductives; no Extract Constant / Extract Inductive of our own',
         'ocaml/driver_ir.ml (parsing of op lines, printing of dumps)',
+        coq_eval.trusted_base_line('ir', xc_ev),
         'harness/ir_world.py (op execution on the real objects, dump, constructor wrapping for creation order; reads Instance._pins and namespace_manager.namespaces), harness/ir_gen.py, harness/ir_oracles.py',
         'the model itself (coq/theories/IR/State.v, NS.v, Ops.v) is hand-written: it is tied to /repo only by the correspondence run reported in this file',
         'CPython 3.12 semantics of list/dict/set/str',
@@ -277,6 +300,9 @@ def assumptions(prop):
 def replay_file(prop, path, on_step_factory=None):
     cfg = CONFIG[prop]
     obj = json.load(open(path))
+    rc = coq_eval.replay(prop, obj, path)
+    if rc is not None:
+        return rc
     ops = [l.split(' ') for l in obj.get('ops', [])]
     d, fails = replay_compare(ops, cfg, on_step_factory)
     print(json.dumps({'disagreement': d, 'oracle_failures': fails}, indent=1, default=str))
